@@ -165,7 +165,8 @@ def sample(ctx, budget=1.0, hint=None, broken=None):
         if all(q == ps[0] for q in ps):
             continue   # a point, not a curve
         seg = _mk(spt, kind, ps)
-        t = r.choice([0.0, 1.0, 0.5, r.uniform(0, 1), r.uniform(-0.1, 1.1)])
+        t = r.choice([0.0, 1.0, 0.5, r.uniform(0, 1), r.uniform(-0.1, 1.1), 1 - 10.0 ** -r.randint(3, 12), 10.0 ** -r.randint(3, 12),
+                      1 + 10.0 ** -r.randint(4, 9)])
         mx = max(abs(p) for p in ps)
         tol = 64 * 2.0 ** -52 * mx * (1 + abs(t)) ** (k - 1) * k + 1e-300
         ctor = '%s(%s)' % (type(seg).__name__, ', '.join(repr(p) for p in ps))
